@@ -201,6 +201,43 @@ func c15Render(s c15Spec) string {
 	return body0
 }
 
+// c15CatchSpace: a catch parameter (or other scope-owned binding) x a same-named hoistable declaration nested in
+// the scope's body (Annex B.3.3 / B.3.5): the reference sites before, inside and after the nested block must keep
+// binding to the catch parameter, the block-level function and the function-level var respectively.
+func c15CatchSpace() xseg {
+	var progs []string
+	owners := []struct{ open, close string }{
+		{"try { throw 'T0' } catch (N) { ", "} "},
+		{"try { throw {k: 'T0'} } catch ({k: N}) { ", "} "},
+		{"for (let N of ['T0']) { ", "} "},
+		{"{ let N = 'T0'; { ", "} } "},
+		{"(function(N) { ", "})('T0'); "},
+	}
+	inner := []string{
+		"{ function N() { return 'T1' } H.log('in', typeof N) } ",
+		"if (H) { function N() { return 'T1' } H.log('in', typeof N) } ",
+		"{ { function N() { return 'T1' } } H.log('in', typeof N) } ",
+		"var N = 'T1'; ",
+		"{ var N = 'T1'; H.log('in', typeof N) } ",
+		"for (var N of ['T1']) H.log('in', typeof N); ",
+		"{ function N() { return 'T1' } function M() { return N } H.log('in', typeof M()) } ",
+		"switch (1) { case 1: function N() { return 'T1' } H.log('in', typeof N) } ",
+	}
+	for _, o := range owners {
+		for _, in := range inner {
+			for _, n := range []string{"e", "a"} {
+				// hoisting a var/function through a same-named let/const/for-let binding is an early error: V8 decides
+				body := "H.log('before', typeof N, String(N).slice(0, 12)); " + in + "H.log('after', typeof N, String(N).slice(0, 12)); late.push(() => H.log('late', typeof N)); "
+				p := "var late = []; " + o.open + body + o.close + "H.log('outer', typeof N); late.forEach(f => f()); return 'end';"
+				progs = append(progs, strings.ReplaceAll(p, "N", n))
+			}
+		}
+	}
+	return xseg{"scope-owned binding x same-named hoistable declaration", uint64(len(progs)), func(i uint64) xcase {
+		return xcase{code: "globalThis.__f = function(H) {\n" + progs[i] + "\n};", label: "catch-annexb"}
+	}}
+}
+
 func c15Space(tier string) xseg {
 	var specs []c15Spec
 	nk := len(c15ScopeKinds)
@@ -435,7 +472,27 @@ func runC15(c *Check) {
 		// minify-syntax inlines constants across `with` scopes (documented C03 exclusion: no with/direct eval under syntax minification)
 		return (cfg == "all" || cfg == "iife+syntax") && (strings.Contains(cs.code, "with (") || strings.Contains(cs.code, "eval("))
 	}}
-	x.runSpace(&xspace{segs: []xseg{c15Space(c.Tier)}})
+	// Annex B.3.3 deviations of the unchanged tree (recorded finding): a block-level function named like a binding
+	// owned by an enclosing scope (parameter, catch parameter, let/for-let) is hoisted over that binding. This only
+	// concerns references *after* the nested block; a case is mapped onto the finding only if the reference before
+	// the block still sees exactly what it saw natively.
+	x.classify2 = func(exp, got, input string) []string {
+		if !strings.Contains(input, "H.log('before'") {
+			return nil
+		}
+		first := func(s string) string {
+			if i := strings.Index(s, "),"); i >= 0 {
+				return s[:i]
+			}
+			return s
+		}
+		if first(exp) == first(got) && strings.HasPrefix(exp, "log(\"before\"") {
+			return []string{"annexb-block-function-named-like-enclosing-scope-binding-is-hoisted-over-it"}
+		}
+		return nil
+	}
+	x.runSpace(&xspace{segs: []xseg{c15Space(c.Tier), c15CatchSpace()}})
+	x.classify2 = nil
 	// known-finding probes (excluded from the generated space by construction)
 	x.runBatch(0, []xcase{
 		{code: "globalThis.__f = function(H) {\nfunction x() { return 1 } with ({e: 'W'}) { for (let x = 2, once = 0; once < 1; once++) { var e = 'T'; H.log(e, x) } } H.log(typeof e, typeof x, typeof a, typeof n2); return 'end';\n};"},
